@@ -54,7 +54,10 @@ impl Conc {
         if let Some(x) = self.names.get(abs) {
             return x.clone();
         }
-        let pool = ["copies", "sides", "media", "print-color-mode", "x", "job-priority", "orientation-requested", "名前"];
+        // ... including names the builders themselves write into the operation group: given as extra job attributes they
+        // belong to the job-attributes group like any other
+        let pool = ["copies", "sides", "media", "print-color-mode", "x", "job-priority", "orientation-requested", "名前",
+            "job-name", "requesting-user-name", "last-document", "document-name", "job-name"];
         let mut v = r.pick(&pool).to_string();
         while self.names.values().any(|x| *x == v) {
             v.push('2');
